@@ -408,26 +408,37 @@ def r7_streams(chk, repo):
     chk.floor(R, "wrapper generators around loaders", n, 3)
     from .c03 import decompressors_drain
     decompressors_drain(chk, repo, R)
-    # one loader per target
-    cp = repo.func("Context.copy_to_frontend", CONTEXT)
-    sf = [c for c in calls_in(cp.node) if isinstance(c.func, ast.Attribute) and c.func.attr == "save_from"]
-    chk.check(len(sf) >= 1, R, cp, None, "copy_to_frontend no longer feeds a saver with save_from", site_text="copy_to_frontend: saver.save_from(<stream>)")
-    for c in sf:
-        lp = enclosing(c, (ast.For, ast.While))
-        if lp is None or enclosing(lp, (ast.FunctionDef,)) is not cp.node:
-            chk.ok(R, "copy_to_frontend: save_from outside a loop", nontrivial=False)
-            continue
-        # names the stream argument depends on: the argument, and free variables of a local wrapper
-        names = {x.id for a in c.args for x in ast.walk(a) if isinstance(x, ast.Name)}
-        for fn in [x for x in ast.walk(cp.node) if isinstance(x, ast.FunctionDef) and x is not cp.node and x.name in names]:
-            bound = {a.arg for a in fn.args.args} | {t.id for st in walk_body(fn) for t in ast.walk(st) if isinstance(t, ast.Name) and isinstance(t.ctx, ast.Store)}
-            names |= {x.id for x in walk_body(fn) for x in ast.walk(x) if isinstance(x, ast.Name) and isinstance(x.ctx, ast.Load) and x.id not in bound}
-        srcs = [st for st in walk_body(cp.node) if isinstance(st, ast.Assign) and isinstance(st.targets[0], ast.Name) and st.targets[0].id in names and isinstance(st.value, ast.Call) and isinstance(st.value.func, ast.Attribute) and st.value.func.attr in ("loader", "get_iter")]
-        chk.check(bool(srcs), R, cp, stmt_of(c), "the stream given to save_from does not come from a loader", site_text="copy_to_frontend: stream = <backend>.loader(...)")
-        inside = {id(x) for st_ in lp.body for x in ast.walk(st_)}
-        for st in srcs:
-            chk.check(id(st) in inside, R, cp, st, "one loader (a generator) is shared by all target frontends: the first copy exhausts it and every further target is written empty and marked complete",
-                      site_text="copy_to_frontend: a fresh loader for every target frontend", site={"function": cp.qualname, "rule": "generator created inside the loop that consumes it"})
+    # one stream per target: whatever save_from consumes inside a loop over target frontends is created
+    # inside that loop (a generator is exhausted by its first consumer)
+    for q in ("Context.copy_to_frontend", "Context.merge_per_chunk_storage"):
+        cp = repo.func(q, CONTEXT)
+        sf = [c for c in calls_in(cp.node) if isinstance(c.func, ast.Attribute) and c.func.attr == "save_from"]
+        chk.check(len(sf) >= 1, R, cp, None, f"{q} no longer feeds a saver with save_from", site_text=f"{q}: saver.save_from(<stream>)")
+        for c in sf:
+            lp = enclosing(c, (ast.For, ast.While))
+            if lp is None or enclosing(lp, (ast.FunctionDef,)) is not cp.node:
+                chk.ok(R, f"{q}: save_from outside a loop", nontrivial=False)
+                continue
+            inside = {id(x) for st_ in lp.body for x in ast.walk(st_)}
+            local_gens = {x.name for x in ast.walk(cp.node) if isinstance(x, ast.FunctionDef) and x is not cp.node and any(isinstance(y, (ast.Yield, ast.YieldFrom)) for y in ast.walk(x))}
+            arg = c.args[0] if c.args else None
+            bad = []
+            srcs = []
+            if isinstance(arg, ast.Name):
+                # a name: its binding must be inside the loop
+                binds = [st for st in walk_body(cp.node) if isinstance(st, ast.Assign) and any(isinstance(t, ast.Name) and t.id == arg.id for t in st.targets)]
+                srcs += binds
+                bad += [st for st in binds if id(st) not in inside]
+            names = {x.id for a in c.args for x in ast.walk(a) if isinstance(x, ast.Name)}
+            for fn in [x for x in ast.walk(cp.node) if isinstance(x, ast.FunctionDef) and x is not cp.node and x.name in names]:
+                bound = {a.arg for a in fn.args.args} | {t.id for st in walk_body(fn) for t in ast.walk(st) if isinstance(t, ast.Name) and isinstance(t.ctx, ast.Store)}
+                free = {x.id for st in walk_body(fn) for x in ast.walk(st) if isinstance(x, ast.Name) and isinstance(x.ctx, ast.Load) and x.id not in bound}
+                gens = [st for st in walk_body(cp.node) if isinstance(st, ast.Assign) and isinstance(st.targets[0], ast.Name) and st.targets[0].id in free and isinstance(st.value, ast.Call) and isinstance(st.value.func, ast.Attribute) and st.value.func.attr in ("loader", "get_iter")]
+                srcs += gens
+                bad += [st for st in gens if id(st) not in inside]
+            chk.check(bool(srcs) or (isinstance(arg, ast.Call) and call_name(arg) in local_gens), R, cp, stmt_of(c), f"{q}: the stream given to save_from does not come from a loader / local generator", site_text=f"{q}: stream = loader or local generator")
+            chk.check(not bad, R, cp, bad[0] if bad else stmt_of(c), f"{q}: one stream (a generator) is shared by all target frontends: the first target exhausts it and every further target is written empty and marked complete",
+                      site_text=f"{q}: a fresh stream for every target frontend", site={"function": cp.qualname, "rule": "generator created inside the loop that consumes it"})
 
 # ------------------------------------------------------------------------------------ R8
 def r8_per_chunk_guard(chk, repo):
@@ -474,6 +485,8 @@ WITNESSES = [
       "t1 = time.time()\n                load_time_seconds.append(t1 - t0)", "t1 = time.time()\n                if not data.nbytes:\n                    continue\n                load_time_seconds.append(t1 - t0)"),
     W("copy wrapper stops at the first empty chunk", "C16.R7", CONTEXT,
       "data.target_size_mb = md[\"chunk_target_size_mb\"]\n                        except StopIteration:", "data.target_size_mb = md[\"chunk_target_size_mb\"]\n                            if not len(data):\n                                return\n                        except StopIteration:"),
+    W("one merged stream shared by all merge targets", "C16.R7", CONTEXT,
+      "saver.save_from(wrapped_loader(), rechunk=rechunk)", "saver.save_from(_the_loader, rechunk=rechunk)"),
     W("one loader shared by all copy targets", "C16.R7", CONTEXT,
       "for t_sf in target_sf:\n            try:\n                # Need to load a new loader each time since it's a generator\n                # and will be exhausted otherwise.\n                loader = s_be.loader(s_be_key)\n",
       "loader = s_be.loader(s_be_key)\n        for t_sf in target_sf:\n            try:\n"),
